@@ -91,9 +91,16 @@ def main():
             print("does not build:\n" + out1[-2000:])
             ok = False
         env = dict(ENV, VERIF_REPO=wt)
-        rc2, out2 = sh([os.path.join(VERIF, "tools", "baseline.py")], wt, env=env)
-        if rc2 != 0 and re.findall(r"MISSING (\S+)", out2) and all(("TestTimeout" in m or "TestRequest_ResponseOK" in m or "Test_Consumption_Consume" in m) for m in re.findall(r"MISSING (\S+)", out2)):
-            rc2, out2 = sh([os.path.join(VERIF, "tools", "baseline.py")], wt, env=env)  # load flake: once more
+        flaky = ("TestTimeout", "TestRequest_ResponseOK", "Test_Consumption_Consume", "Test_Consumption_ConsumePanic")  # timing-based tests of the project, flaky under load
+        missing_all = None
+        for attempt in range(4):
+            rc2, out2 = sh([os.path.join(VERIF, "tools", "baseline.py")], wt, env=env)
+            miss = set(re.findall(r"MISSING (\S+)", out2))
+            missing_all = miss if missing_all is None else (missing_all & miss)  # a test counts as failing only if it fails every time
+            if rc2 == 0 or not missing_all or not all(any(f in m for f in flaky) for m in missing_all):
+                break
+        if rc2 != 0 and missing_all is not None and not missing_all:
+            rc2 = 0
         result["steps"]["existing_suite_passes"] = rc2 == 0
         if rc2 != 0:
             print("existing suite fails with the change:\n" + out2[-1500:])
